@@ -47,7 +47,8 @@ ASSUMPTIONS = [
     "random payloads (applications and opaque blocks) carry an invalid MBI image type at every offset where another start offset would make the parser look for an MBI header; the chance behaviour of the MBI parser on such bytes is exercised by two directed witnesses instead",
     "an initial offset between two segment starts means the next start (documented in the init_offset setter and pinned by the repository tests)",
     "a build in which all supplied segments lie before the initial offset (empty image) is not generated",
-    "parse is called with the family, revision and memory type the image was built for (no auto-detection across memory types)",
+    "parse is judged with the family, revision and memory type the image was built for, and - for images that start at offset 0 - a "
+    "second time without a memory type: auto-detection may settle on another memory type as long as every supplied segment is recovered",
     "block sizes beyond the room to the next segment's offset are outside the property's quantifier and are not generated",
     "a merge may refuse (documented error) only an opaque block longer than its fixed format size; refusing well-formed fitting segments is judged",
     "whether the MBI / HAB / AHAB classes read their own bytes back is the business of C01/C06/C07: where the container class alone rejects its bytes the parse clauses are not judged, where it is not idempotent the re-export clause is not judged (both counted)",
